@@ -13,6 +13,7 @@ static int ncalls; static uint32_t call_size[MAXCALLS];
 static ic_buf mem;                     /* bytes accepted so far */
 static const uint8_t *base; static size_t baselen;   /* expected stream (NULL while recording the baseline) */
 static char stream_err[256]; static int hard_seen; static int eintr_pending;
+static size_t SC_prefix_len(void);
 ssize_t vf_write(int fd, const void *buf, size_t n);
 ssize_t vf_write(int fd, const void *buf, size_t n) {
 	(void) fd;
@@ -34,9 +35,25 @@ ssize_t vf_write(int fd, const void *buf, size_t n) {
 	}
 }
 
+/* the same script answers the vectored and positioned variants, should the writer use them: one call = one scripted outcome over the
+ * concatenated bytes (a refactoring from write to writev stays covered, and its resume arithmetic after a short count is exercised; seed R7-C01) */
+#include <sys/uio.h>
+ssize_t vf_writev(int fd, const struct iovec *iov, int cnt);
+ssize_t vf_writev(int fd, const struct iovec *iov, int cnt) {
+	size_t tot = 0; for (int i = 0; i < cnt; i++) tot += iov[i].iov_len;
+	uint8_t *tmp = malloc(tot ? tot : 1); size_t o = 0; for (int i = 0; i < cnt; i++) { memcpy(tmp + o, iov[i].iov_base, iov[i].iov_len); o += iov[i].iov_len; }
+	ssize_t r = vf_write(fd, tmp, tot); int e = errno; free(tmp); errno = e; return r;
+}
+ssize_t vf_pwrite(int fd, const void *buf, size_t n, off_t off);
+ssize_t vf_pwrite(int fd, const void *buf, size_t n, off_t off) {
+	if (base && !stream_err[0] && (size_t) off != SC_prefix_len() + mem.n) snprintf(stream_err, sizeof stream_err, "positioned write at offset %lld while %zu bytes have been accepted (the table is not written as one contiguous stream)", (long long) off, mem.n);
+	return vf_write(fd, buf, n);
+}
+
 /* ---- scenario ---- */
 typedef struct { int nblocks; int comp; size_t prefix; int pool; } wscen;
 static wscen SC;
+static size_t SC_prefix_len(void) { return SC.prefix; }
 static struct mtbl_threadpool *g_tp;
 static bool run_writer(void) {         /* returns true if mtbl_writer_destroy returned normally */
 	tkv e[4]; static uint8_t keys[4][2]; static uint8_t *vals[4];
